@@ -2,6 +2,7 @@
 package c14
 
 import (
+	"errors"
 	"bytes"
 	"encoding/json"
 	"fmt"
@@ -24,12 +25,36 @@ import (
 	"github.com/gardenbed/emerge/internal/ebnf/parser/spec"
 	rast "github.com/gardenbed/emerge/internal/regex/parser/ast"
 	"github.com/gardenbed/emerge/internal/regex/parser/nfa"
+	"github.com/gardenbed/emerge/internal/vh/emit"
 	"github.com/gardenbed/emerge/internal/vh/gen"
 	"github.com/gardenbed/emerge/internal/vh/rec"
 	"github.com/gardenbed/emerge/internal/vh/ref"
 )
 
-func TestMain(m *testing.M) { rec.Main(m, "C14") }
+func TestMain(m *testing.M) {
+	if c := os.Getenv("VERIF_C14_CHILD"); c != "" {
+		// child mode: run the oracle on one input in a process of its own (see watchdog)
+		kind, file, _ := strings.Cut(c, ":")
+		data, err := os.ReadFile(file)
+		if err != nil {
+			fmt.Println(err)
+			os.Exit(9)
+		}
+		var cerr error
+		if kind == "spec" {
+			_, _, cerr = checkSpec(data)
+		} else {
+			_, cerr = checkPattern(string(data))
+		}
+		out := map[string]string{}
+		if cerr != nil {
+			out["err"] = cerr.Error()
+		}
+		_ = json.NewEncoder(os.Stdout).Encode(out)
+		os.Exit(0)
+	}
+	rec.Main(m, "C14")
+}
 
 // ruleMore describes what was added to the exploration in the build phase.
 const ruleMore = "; one specimen per semantic diagnostic in several declaration orders"
@@ -68,17 +93,69 @@ type input struct {
 	Args []string `json:"args,omitempty"`
 }
 
-func watchdog(name string, f func() error) error {
+// watchdog runs the oracle on one input.  If it has not returned after 20 s the input is handed to a child process
+// whose processor time is watched: 10 s of processor time without returning is non-termination (these inputs cost
+// milliseconds; the measure is processor time, so a busy machine cannot cause it); a child that finishes gives the
+// verdict; a child that does not get the processor makes the run inconclusive (exit 3).
+func watchdog(name, kind string, payload []byte, f func() error) error {
+	if os.Getenv("VERIF_C14_CHILD") != "" {
+		return f()
+	}
 	done := make(chan error, 1)
 	go func() { done <- f() }()
 	select {
 	case err := <-done:
 		return err
 	case <-time.After(20 * time.Second):
-		fmt.Printf("WATCHDOG: %s did not return within 20 s; this run is inconclusive\n", name)
-		os.Exit(3)
 	}
-	return nil
+	rec.Count("inputs_repeated_in_a_child_process", 1)
+	dir, err := os.MkdirTemp("", "c14child")
+	if err != nil {
+		return err
+	}
+	defer os.RemoveAll(dir)
+	file := filepath.Join(dir, "input")
+	if err := os.WriteFile(file, payload, 0o644); err != nil {
+		return err
+	}
+	cmd := exec.Command(os.Args[0], "-test.run", "^$")
+	cmd.Env = append(os.Environ(), "VERIF_C14_CHILD="+kind+":"+file)
+	var out bytes.Buffer
+	cmd.Stdout = &out
+	if err := cmd.Start(); err != nil {
+		return err
+	}
+	finished := make(chan error, 1)
+	go func() { finished <- cmd.Wait() }()
+	start := time.Now()
+	tick := time.NewTicker(500 * time.Millisecond)
+	defer tick.Stop()
+	for {
+		select {
+		case werr := <-finished:
+			var res map[string]string
+			if werr != nil || json.Unmarshal(out.Bytes(), &res) != nil {
+				fmt.Printf("WATCHDOG: the child process for %s failed (%v); this run is inconclusive\n", name, werr)
+				os.Exit(3)
+			}
+			if res["err"] != "" {
+				return errors.New(res["err"])
+			}
+			return nil
+		case <-tick.C:
+			if emit.CPUTime(cmd.Process.Pid) >= emit.SpinCPU {
+				_ = cmd.Process.Kill()
+				<-finished
+				return fmt.Errorf("%s does not terminate: %v of processor time without returning (such an input costs milliseconds)", name, emit.SpinCPU)
+			}
+			if time.Since(start) >= emit.WallLimit {
+				_ = cmd.Process.Kill()
+				<-finished
+				fmt.Printf("WATCHDOG: %s did not return and the machine is too busy to tell why; this run is inconclusive\n", name)
+				os.Exit(3)
+			}
+		}
+	}
 }
 
 func toRefGrammar(sp *spec.Spec) *ref.Grammar {
@@ -103,7 +180,7 @@ func toRefGrammar(sp *spec.Spec) *ref.Grammar {
 // checkSpec is the oracle for a specification given as bytes.  consumed reports whether at least the grammar
 // keyword was recognised (the input reaches logic).
 func checkSpec(data []byte) (accepted bool, consumed bool, err error) {
-	err = watchdog(fmt.Sprintf("specification %q", data), func() error {
+	err = watchdog(fmt.Sprintf("specification %q", data), "spec", data, func() error {
 		var sp *spec.Spec
 		var e1 error
 		if p := rec.Guard(func() { sp, e1 = spec.Parse("in.ebnf", bytes.NewReader(data)) }); p != nil {
@@ -239,7 +316,7 @@ func smallEnough(s string) bool {
 }
 
 func checkPattern(s string) (accepted bool, err error) {
-	err = watchdog(fmt.Sprintf("pattern %q", s), func() error {
+	err = watchdog(fmt.Sprintf("pattern %q", s), "pattern", []byte(s), func() error {
 		var e1, e2 error
 		var okN, okA bool
 		if p := rec.Guard(func() {
@@ -281,11 +358,23 @@ func checkPattern(s string) (accepted bool, err error) {
 var hostileSpecs = []string{"", "grammar", "grammar g", "grammar g;", "grammar g; start = ;", "grammar g; start = start | ;x", "grammar g; @left", "grammar g; A", "grammar g; AB = ", "grammar g; AB = $X start = AB;",
 	"grammar g; AB = /[\\x0100]/ start = AB;", "grammar g; AB = // start = AB;", "grammar g; start = \"\\", "grammar g; start = {{{ \"a\" }}};", "grammar g; start = < ;", "grammar g; @left < start = > ; start = ;",
 	"grammar g; @none <x = > <x = > ; start = x; x = ;", "grammar g; start = ((((((((((\"a\"))))))))));", "grammar g; AB = /[\\xFFFFFFFF]/ start = AB;", "grammar g; AB = /a{3,1}/ start = AB;", "grammar g; AB = /a{64}/ start = AB;", "grammar g; AB = /[a-z]{70}x/ start = AB;",
+	// more than a hundred distinct terminals, rules and bracketed groups (tables that grow)
+	bigHostileSpec(),
 	// one specimen per semantic diagnostic, in several orders
 	"grammar g;\nIF = \"if\"\nstart = IF \"if\";\n", "grammar g;\nstart = \"if\" IF;\nIF = \"if\"\n", "grammar g;\nARROW = /->/\nstart = ARROW \"->\";\n",
 	"grammar g;\nPLUS = \"+\"\nADD = \"+\"\nstart = PLUS ADD \"+\";\n", "grammar g;\nNUM = /[0-9]+/\nINT = /[0-9]+/\nstart = NUM INT;\n", "grammar g; AB = \"x\" AB = /y/ start = AB;",
 	"grammar g; start = AB;", "grammar g; start = x;", "grammar g; x = \"a\";", "grammar g; @left \"+\" @right \"+\" start = \"+\";", "grammar g; @left <start = \"a\"> @right <start = \"a\"> start = \"a\";",
 	"grammar g; AB = $ID CD = $ID start = AB CD;", "grammar g; AB = /(/ CD = /)/ EF = /[z-a]/ start = AB CD EF;", "grammar g; @left AB start = \"a\";", "grammar g; @left <x = \"a\"> start = \"a\";"}
+
+func bigHostileSpec() string {
+	var b strings.Builder
+	b.WriteString("grammar big;\nID = /[a-z]+/\n")
+	for i := 0; i < 60; i++ {
+		fmt.Fprintf(&b, "r%d = \"kw%d\" [ ID \"op%d\" ] { r%d | \"sep%d\" } ;\n", i, i, i, (i+1)%60, i)
+	}
+	b.WriteString("start = r0 ;\n")
+	return b.String()
+}
 
 func genSpecBytes(t *rapid.T) ([]byte, string) {
 	switch rapid.IntRange(0, 9).Draw(t, "source") {
